@@ -68,3 +68,28 @@ def tmp_path(name):
     d = os.environ.get('VERIF_TMP', '/tmp/verif-%d' % os.getpid())
     os.makedirs(d, exist_ok=True)
     return os.path.join(d, name)
+
+
+def pick(items, seed, n):
+    """Deterministic seed-selected sample (order-independent)."""
+    import hashlib
+    items = list(items)
+    if len(items) <= n:
+        return items
+    keyed = sorted(range(len(items)), key=lambda i: hashlib.sha1(('%d:%d' % (seed, i)).encode()).digest())
+    return [items[i] for i in sorted(keyed[:n])]
+
+
+def validate_traces(cases, stats, threads=8):
+    """Replay cases on real loopback TCP + subprocess CLI (mc/realnet.py).  Returns the number of traces that agreed."""
+    from . import realnet
+    if os.environ.get('VERIF_NO_REALNET'):
+        return 0
+    agree, mism, skipped = realnet.validate_many(cases, threads=threads)
+    stats.extra['traces_replayed_on_real_tcp'] += agree + len(mism)
+    stats.extra['traces_not_reproducible_on_loopback'] += skipped
+    for m in mism[:5]:
+        # a disagreement means the environment model is wrong for this trace: reported, never turned into a property verdict
+        print('TRACE-VALIDATION-MISMATCH: %s' % json.dumps(m, default=repr)[:900])
+    stats.extra['trace_validation_mismatches'] += len(mism)
+    return agree
